@@ -110,7 +110,10 @@ def port_text(m, u):
         mm = re.match(rb'[A-Za-z][A-Za-z0-9+.\-]*://([^/?#]*)', u)
         if not mm:
             return None
-        hp = mm.group(1).rsplit(b'@', 1)[-1]
+        auth = mm.group(1)
+        if auth.count(b'@') > 1 or any(b <= 32 or b == 127 for b in auth):
+            return None
+        hp = auth.rsplit(b'@', 1)[-1]
     else:
         hp = u
     if hp[:1] == b'[':
@@ -146,6 +149,8 @@ def classify(c, i_accepts):
             feat = 'port-read-by-atoi'
     elif c['ok'] and not bytes(c['host']):
         feat = 'empty-host-accepted'
+    elif c['ok'] and b':' in bytes(c['host']) and bytes(c['host'])[:1] != b'[':
+        feat = 'non-ip-host-with-colon'
     elif c['ok'] and c['ok2'] and bytes(c['path']) != bytes(c['path2']):
         feat = 'path-changes-on-reparse'
         if bytes(c['path2']) == pct(bytes(c['path'])) and (c['scheme'], c['host'], c['port']) == (c['scheme2'], c['host2'], c['port2']):
